@@ -1,11 +1,119 @@
 import TdVerif.Sexp
+import TdVerif.Model.C19Vmap
+import TdVerif.Model.C19Ops
 
 namespace TdVerif.Drive
-open TdVerif Sexp
+open TdVerif Sexp TdVerif.C19
+
+namespace C19D
+
+partial def opOf? : Sexp → Option OpName
+  | .list [.atom "mul2"] => some .mul2
+  | .list [.atom "add1"] => some .add1
+  | .list [.atom "neg"] => some .neg
+  | .list [.atom "unsqueeze", d] => do pure (.unsqueeze (← asNat? d))
+  | .list [.atom "permute_rev"] => some .permuteRev
+  | .list [.atom "transpose01"] => some .transpose01
+  | .list [.atom "idx0"] => some .idx0
+  | .list [.atom "expand2"] => some .expand2
+  | .list [.atom "stack_self"] => some .stackSelf
+  | .list [.atom "sum0"] => some .sum0
+  | .list [.atom "cat_self"] => some .catSelf
+  | .list [.atom "select", .atom k] => some (.select k)
+  | .list [.atom "exclude", .atom k] => some (.exclude k)
+  | .list [.atom "setmul3", .atom s, .atom d] => some (.setMul3 s d)
+  | .list [.atom "rename", .atom s, .atom d] => some (.rename s d)
+  | .list [.atom "flatten_keys"] => some .flattenKeys
+  | .list [.atom "clone"] => some .clone
+  | .list [.atom "vmap", i, o, .list (.atom "prog" :: ops)] => do
+      pure (.vmap (← asInt? i) (← asInt? o) (← ops.mapM opOf?))
+  | _ => none
+
+/-- compile a program at a per-sample batch size: applicability checks, dimension normalisation
+(`normInDim` / `normOutDim`), nested vmaps become `vmapOp`s at the next level -/
+partial def compile (level : Nat) : List OpName → Shape → Except String (List TOp × Shape)
+  | [], b => .ok ([], b)
+  | .vmap i o p :: rest, b => do
+      let r := b.length
+      if i < -(r : Int) || i ≥ (r : Int) then throw "in_dim"
+      let i' := normInDim i r
+      let (ops, bout) ← compile (level + 1) p (b.eraseIdx i')
+      let rout := bout.length
+      if o < -((rout : Int) + 1) || o > (rout : Int) then throw "out_dim"
+      let o' := normOutDim o rout
+      let op := vmapOp ops i' o' (level + 1)
+      let (more, bfin) ← compile level rest (op.bs b)
+      pure (op :: more, bfin)
+  | n :: rest, b => do
+      if !(n.okOn b) then throw "op"
+      match n.simpleOp with
+      | none => throw "op"
+      | some op =>
+        let (more, bfin) ← compile level rest (op.bs b)
+        pure (op :: more, bfin)
+
+def nameOf? : Sexp → Option (Option String)
+  | .atom "none" => some none
+  | .atom s => some (some s)
+  | _ => none
+
+def tdOf? : Sexp → Option TD
+  | .list [.atom "td", .list (.atom "batch" :: bs), .list (.atom "names" :: ns), .list (.atom "leaves" :: ls)] => do
+      let bs ← nats? bs
+      let ns ← ns.mapM nameOf?
+      let ls ← ls.mapM (fun l => match l with
+        | .list (.atom k :: feat) => do pure (k, ← nats? feat)
+        | _ => none)
+      pure ⟨bs, ns, ls.zipIdx.map (fun (p : (String × List Nat) × Nat) => (p.1.1, arangeT (1000 * (p.2 : Int)) (bs ++ p.1.2)))⟩
+  | _ => none
+
+def nameToSexp : Option String → Sexp
+  | none => .atom "none"
+  | some s => .atom s
+
+def tdToSexp (td : TD) : Sexp :=
+  tagged "ok" [tagged "batch" (td.batch.map ofNat), tagged "names" (td.names.map nameToSexp),
+    tagged "leaves" (td.leaves.map (fun p => .list [.atom p.1, ofNats p.2.shape, ofInts p.2.toList]))]
+
+end C19D
 
 /-- line-protocol handler for C19: commands are named `c19.<something>` -/
 def handleC19 (cmd : String) (args : List Sexp) : Option Sexp :=
   match cmd, args with
+  | "c19.vmap", [td, i, o, .list (.atom "prog" :: ops)] => do
+      let td ← C19D.tdOf? td
+      let i ← asInt? i
+      let o ← asInt? o
+      let ops ← ops.mapM C19D.opOf?
+      let r := td.batch.length
+      if i < -(r : Int) || i ≥ (r : Int) then pure (.list [.atom "err", .atom "in_dim"]) else
+      let i' := normInDim i r
+      match C19D.compile 1 ops (td.batch.eraseIdx i') with
+      | .error e => pure (.list [.atom "err", .atom e])
+      | .ok (tops, bout) =>
+        let rout := bout.length
+        if o < -((rout : Int) + 1) || o > (rout : Int) then pure (.list [.atom "err", .atom "out_dim"]) else
+        pure (C19D.tdToSexp (vmapTD tops i' (normOutDim o rout) 1 td))
+  | "c19.loop", [td, i, o, .list (.atom "prog" :: ops)] => do
+      -- the specification side: stack over the slices of the program applied to each slice
+      let td ← C19D.tdOf? td
+      let i ← asNat? i
+      let o ← asNat? o
+      let ops ← ops.mapM C19D.opOf?
+      match C19D.compile 1 ops (td.batch.eraseIdx i) with
+      | .error e => pure (.list [.atom "err", .atom e])
+      | .ok (tops, _) => pure (C19D.tdToSexp (stackTD ((unbindTD td i).map (runProg tops)) o))
+  | "c19.leaf", [.list (.atom "shape" :: s), i, o] => do
+      -- the functorch primitive on a plain tensor: wrap at i, unwrap at o
+      let s ← nats? s
+      let i ← asNat? i
+      let o ← asNat? o
+      let t := removeBDLeaf o (addBDLeaf i (arangeT 0 s))
+      pure (.list [ofNats t.shape, ofInts t.toList])
+  | "c19.norm", [d, r] => do
+      let d ← asInt? d
+      let r ← asNat? r
+      pure (.list [ofNat (normInDim d r), ofNat (normOutDim d r), ofNat (pyInsertPos d r)])
   | _, _ => none
 
 end TdVerif.Drive
